@@ -25,15 +25,17 @@ META = {
                   "EC part is dropped only with a confirmed other holder. Removals with the default mark are classified "
                   "(container gone / EC attributes not matching the policy). The model is tied to the source on every run by "
                   "running the real Policer.processObject and the real Replicator.HandleTask over fakes on enumerated and "
-                  "random placements and comparing HEAD order, tasks, sends, reported successes and deletions.",
+                  "random placements and comparing HEAD order, tasks, sends, reported successes and deletions; the real HandleTask is also "
+                  "run on directly given tasks of every kind (address only / object carried, local node among the targets, quantity 0..len+1) "
+                  "against Place/Repl.v handle_task_any and the bound of C26_replicator_bounded_any.",
     "level_note": "Trusted: Coq kernel + vm_compute; hand-written model Place/Policer.v (tied by the differential check only, bounded "
                   "sampling: all single-rule placements with <=2 (quick) / <=3 (thorough) remote nodes x answers x flags x replication "
                   "outcomes (stored / maintenance status / other failure status / transport failure / unreachable), plus random 1-2 REP rules / 0-2 EC rules with <=5-6 nodes); Go harness fakes (network, header reads, "
                   "transport, local storage recording Delete calls); Python driver. partial: context cancellation, logging/metrics, "
                   "EC attribute decoding failures and checkECParts (recreation of lost EC parts, never deletes) are not modelled; "
                   "answers are fixed per node within one check; node hash collisions are excluded.",
-    "trusted_base": ["Coq 8.16.1 kernel, vm_compute", "model Place/Policer.v hand-written, tied by differential check",
-                     "harness/cmd/place, harness/hooks/pkg/services/{policer,replicator}/zz_verif_place_*.go, lib/vlib.py"],
+    "trusted_base": ["Coq 8.16.1 kernel, vm_compute", "models Place/Policer.v, Place/Repl.v hand-written, tied by differential check",
+                     "harness/cmd/place, harness/hooks/pkg/services/{policer,replicator}/zz_verif_place_*.go, lib/vlib.py, lib/placerepl.py"],
     "assumptions": ["GetNodesForObject contract: len(nodeLists) = len(repRules)+len(ecRules), no node repeated inside one list",
                     "distinct nodes have distinct netmap.NodeInfo.Hash()",
                     "context is not cancelled during the check; HEAD answer of a node does not change within one processObject call "
